@@ -123,7 +123,7 @@ pub fn gen(rng: &mut ChaCha20Rng, n: usize, thorough: bool) -> Vec<Case> {
         } else {
             let big = thorough && rng.gen_range(0..4) == 0; let tx = rtx(rng, Feat { big, no_witness: false }, &mut tags);
             let nt = !tx.input.is_empty() || !tx.output.is_empty();
-            out.push(rename(c01::mk("tx", &serialize(&tx), tags, nt)));
+            out.push(rename(c01::mk("tx", &ref_tx(&tx), tags, nt)));
         }
     }
     out
